@@ -110,11 +110,18 @@ fn recv(r: &mut R) -> RecvSpec {
 
 fn op(r: &mut R) -> Op {
     match r.below(16) {
-        0..=2 => Op::Reset(raw_cfg(r)),
+        0..=1 => Op::Reset(raw_cfg(r)),
+        2 => {
+            if r.below(3) == 0 {
+                Op::ResetSame
+            } else {
+                Op::Reset(raw_cfg(r))
+            }
+        }
         3..=4 => Op::ResetBad { variant: r.below(8) as u8, cfg: raw_cfg(r) },
         5 => {
             let k = [Kind::Default, Kind::High, Kind::Low][r.below(3)];
-            Op::Recycle { kind: k, eng: pick_engine(r.u8()), cfg: raw_cfg(r) }
+            Op::Recycle { kind: k, eng: pick_engine(r.u8()), cfg: raw_cfg(r), same: r.below(5) < 2 }
         }
         6..=9 => Op::Round { seed: r.u64(), recv: recv(r), read: r.below(8) != 0 },
         10..=11 => Op::Partial { seed: r.u64(), recv: recv(r), n_raw: r.u16() },
